@@ -10,6 +10,7 @@ struct All { int a; std::string b; bool operator==(const All& o) const { return 
 struct Nm { int a; std::optional<std::string> b; std::optional<std::vector<int>> zz; bool operator==(const Nm& o) const { return a == o.a && b == o.b && zz == o.zz; } };
 class Cg { int a_; std::string b_; public: Cg() : a_(0) {} Cg(int a, const std::string& b) : a_(a), b_(b) {} int a() const { return a_; } const std::string& b() const { return b_; } bool operator==(const Cg& o) const { return a_ == o.a_ && b_ == o.b_; } };
 class Gs { int a_ = 0; std::vector<std::string> b_; public: int getA() const { return a_; } void setA(int v) { a_ = v; } const std::vector<std::string>& getB() const { return b_; } void setB(const std::vector<std::string>& v) { b_ = v; } bool operator==(const Gs& o) const { return a_ == o.a_ && b_ == o.b_; } };
+struct Blob { std::vector<uint8_t> b; int n; std::vector<uint8_t> c; bool operator==(const Blob& o) const { return b == o.b && n == o.n && c == o.c; } };
 struct Nested { All a; std::vector<All> b; bool operator==(const Nested& o) const { return a == o.a && b == o.b; } };
 struct Shape { virtual ~Shape() = default; virtual double area() const = 0; };
 struct Rect : Shape { double a = 0, b = 0; Rect() {} Rect(double x, double y) : a(x), b(y) {} double area() const override { return a * b; } };
@@ -19,6 +20,7 @@ JSONCONS_ALL_MEMBER_TRAITS(ns17::All, a, b)
 JSONCONS_N_MEMBER_TRAITS(ns17::Nm, 1, a, b, zz)
 JSONCONS_ALL_CTOR_GETTER_TRAITS(ns17::Cg, a, b)
 JSONCONS_ALL_GETTER_SETTER_NAME_TRAITS(ns17::Gs, (getA, setA, "a"), (getB, setB, "b"))
+JSONCONS_ALL_MEMBER_TRAITS(ns17::Blob, b, n, c)
 JSONCONS_ALL_MEMBER_TRAITS(ns17::Nested, a, b)
 JSONCONS_ALL_MEMBER_TRAITS(ns17::Rect, a, b)
 JSONCONS_ALL_MEMBER_TRAITS(ns17::Circ, zz)
@@ -35,6 +37,9 @@ template <> struct Eq<std::shared_ptr<ns17::Shape>> { static bool eq(const std::
 void register_a(); void register_b();
 static void register_c() {
     using namespace ns17;
+    register_type<Blob>("ALL_MEMBER{b:bytes,n:int,c:bytes}", [] { return std::vector<Blob>{{{1, 2, 3}, 7, {9}}, {{}, 0, {}}, {{255}, -1, {0, 0}}}; }, true);
+    register_type<std::vector<std::vector<uint8_t>>>("vector<vector<uint8_t>>", [] { return std::vector<std::vector<std::vector<uint8_t>>>{{{1, 2}, {3}, {4, 5, 6}}, {{7}}, {}}; });
+    register_type<std::map<std::string, std::vector<uint8_t>>>("map<string,vector<uint8_t>>", [] { return std::vector<std::map<std::string, std::vector<uint8_t>>>{{{"a", {1}}, {"b", {2, 3}}, {"c", {4}}}}; }, true);
     register_type<All>("ALL_MEMBER{a:int,b:string}", [] { return std::vector<All>{{0, ""}, {-1, "x"}, {INT32_MAX, "1"}}; }, true);
     register_type<Nm>("N_MEMBER{a:int,b?:string,zz?:vector<int>}", [] { return std::vector<Nm>{{0, std::nullopt, std::nullopt}, {1, std::string("x"), std::nullopt}, {-1, std::nullopt, std::vector<int>{1, 2}}, {2, std::string(""), std::vector<int>{}}}; }, true);
     register_type<Cg>("CTOR_GETTER{a:int,b:string}", [] { return std::vector<Cg>{Cg(0, ""), Cg(-1, "x")}; }, true);
